@@ -1124,6 +1124,13 @@ def check_statistics(ctx, rule="STAT"):
         if n.stmt.value is None:
             continue
         items = dict_items(fv, n.stmt.value, n.stmt)
+        if items:
+            # entries computed into temporaries first (`volume_mean, volume_std = np.mean(v), np.std(v)`)
+            for k_, v_ in list(items.items()):
+                if isinstance(v_, ast.Name):
+                    r_ = fv.single_def_value(v_.id, n)
+                    if r_ is not None and isinstance(r_[0], ast.Call) and not (set(names_in(r_[0])) & fv.mutated):
+                        items[k_] = r_[0]
         if items and isinstance(items.get("volume_mean"), ast.Call):
             rets.append((n, items))
     if len(rets) != 1:
